@@ -250,3 +250,29 @@ package dataflow
 //@   ensures args: forall i int, k int :: g != nil && 0 <= i && i < len(summary.Args) && 0 <= k && k < len(summary.Args[i]) ==> called(SummaryGraph.addParamEdgeByPos, g, i, summary.Args[i][k])
 //@   ensures rets: forall i int, k int :: g != nil && 0 <= i && i < len(summary.Rets) && 0 <= k && k < len(summary.Rets[i]) ==> called(SummaryGraph.addReturnEdgeByPos, g, i, summary.Rets[i][k])
 //@   ensures marked: g != nil ==> g.Constructed && g.IsPreSummarized && g.IsInterfaceContract == isInterface && len(g.Callees) == 0
+
+// ---------------------------------------------------------------------------
+// C08 (closure under control flow): the "previous instruction" relation that Pre()
+// joins over contains, for the first instruction of every block, the LAST
+// instruction of EVERY predecessor block -- including the block itself when it is
+// its own successor (a do-while loop compiles to a single self-looping block).
+// W: block bi of the function, F its first instruction, predecessor number pk.
+
+//@ macro Wb() = function.Blocks[bi]
+//@ macro Wf() = function.Blocks[bi].Instrs[0]
+//@ macro Wp() = function.Blocks[bi].Preds[pk]
+//@ macro Wlast() = function.Blocks[bi].Preds[pk].Instrs[len(function.Blocks[bi].Preds[pk].Instrs) - 1]
+//@ macro Wedge() = intraState.instrPrev[intraState.flowInfo.InstrID[Wf()]][intraState.flowInfo.InstrID[Wlast()]]
+
+//@ func populateInstrPrevMap
+//@   property C08
+//@   ghost bi int
+//@   ghost pk int
+//@   requires intraState != nil && intraState.flowInfo != nil && intraState.instrPrev != nil && function != nil
+//@   requires 0 <= bi && bi < len(function.Blocks) && Wb() != nil && 0 < len(Wb().Instrs) && 0 <= pk && pk < len(Wb().Preds) && Wp() != nil && 0 < len(Wp().Instrs)
+//@   requires forall b int, i int :: 0 <= b && b < len(function.Blocks) && 0 <= i && i < len(function.Blocks[b].Instrs) ==> has(intraState.flowInfo.InstrID, function.Blocks[b].Instrs[i])
+//@   requires forall b int, i int, b2 int, i2 int :: 0 <= b && b < len(function.Blocks) && 0 <= i && i < len(function.Blocks[b].Instrs) && 0 <= b2 && b2 < len(function.Blocks) && 0 <= i2 && i2 < len(function.Blocks[b2].Instrs) && intraState.flowInfo.InstrID[function.Blocks[b].Instrs[i]] == intraState.flowInfo.InstrID[function.Blocks[b2].Instrs[i2]] ==> b == b2 && i == i2
+//@   loop block exit pred_edge_recorded: Wedge()
+//@   loop block invariant done_blocks: bi < iter(block) ==> Wedge()
+//@   loop instr invariant in_block: (bi < iter(block) ==> Wedge()) && (bi == iter(block) && 0 < iter(instr) ==> Wedge()) && (prevInstr == nil <==> iter(instr) == 0)
+//@   loop pred invariant in_preds: (bi < iter(block) ==> Wedge()) && (bi == iter(block) && iter(instr) == 0 && pk < iter(pred) ==> Wedge())
